@@ -76,10 +76,8 @@ def run(ctx):
         for value in u["values"]:
             for k in (2, 3):
                 for combo in itertools.combinations(u["ops"], k):
-                    # "distinct refinements": distinct methods (the len forms are one method)
-                    names = [op[0] for op in combo]
-                    if len(set(names)) < len(names):
-                        continue
+                    # sets of distinct refinement calls; two calls of one method (two len forms, min twice) are included: every
+                    # order of such a set must be rejected alike
                     perms = list(itertools.permutations(combo))
                     outs = [outcome(facade, value, p) for p in perms]
                     ctx.case((facade, repr(value), repr(combo)), True)
